@@ -448,6 +448,10 @@ def _req_name(msg, off, soft):
         if pos + 1 + b > n:
             raise Malformed("label-past-end", pos)
         labels.append(msg[pos + 1:pos + 1 + b])
+        if b"." in labels[-1] or b"\0" in labels[-1]:
+            # such a label has no faithful dotted-C-string form: the server may drop the message; if it delivers it,
+            # check_callback still demands the exact name (keys question-label-containing-{dot,nul}-*)
+            soft.add("label-unrepresentable")
         total += 1 + b
         if total > 257:
             raise Malformed("name-too-long", off)
